@@ -68,12 +68,10 @@ where M: Encode<()> + for<'b> Decode<'b, ()> + Debug, I: PartialEq + Debug, B: F
     }
 }
 
-/// index of the protocol in Run.v's [dec_run]; bool = the message carries an opaque item that the
-/// implementation reads with Decoder::skip (lax on malformed items, e.g. it accepts a lone break byte,
-/// which the strict item decoder of the model rejects): such encodings are only truncated
-fn dec_kind(stack: &str, proto: &str, variant: &str) -> Option<(u32, bool)> {
-    let opaque = matches!((proto, variant), ("localstate", "Query" | "Result") | ("leiosnotify", "BlockAnnouncement" | "Votes")
-        | ("leiosfetch", "Block" | "BlockTxs") | ("chainsync-skipped", "RollForward"));
+/// index of the protocol in Run.v's [dec_run]. Opaque payloads (AnyCbor, SkippedContent) are read with
+/// Decoder::skip, which the model transcribes exactly (Cbor.Skip), so their encodings are mutated like the rest.
+fn dec_kind(stack: &str, proto: &str, _variant: &str) -> Option<(u32, bool)> {
+    let opaque = false;
     let k = match proto {
         "keepalive" => 0, "blockfetch" => 1, "chainsync-header" => 2, "chainsync-block" => 3, "chainsync-skipped" => 4, "txsubmission" => 5,
         "peersharing" => if stack == "n1" { 6 } else { 7 }, "handshake-n2n" => 8, "handshake-n2c" => 9, "localstate" => 10, "txmonitor" => 11,
